@@ -969,8 +969,46 @@ func (p *pkgInfo) footprints() []footprint {
 					cachefill: f == "fieldFSTs", pos: fset.Position(n.Pos())})
 			}
 		}
+		// reads of the mutex-protected cache outside the lock are recorded as (unlocked) entries too:
+		// every access to a location that is written under the mutex must hold it
+		reads := func(n ast.Node, held bool) {
+			if n == nil || held {
+				return
+			}
+			ast.Inspect(n, func(m ast.Node) bool {
+				if _, isBlock := m.(*ast.BlockStmt); isBlock {
+					return false // nested blocks are walked with their own lock state
+				}
+				if _, isFn := m.(*ast.FuncLit); isFn {
+					return false
+				}
+				if se, ok := m.(*ast.SelectorExpr); ok {
+					if id, ok := se.X.(*ast.Ident); ok && segs[id.Name] && se.Sel.Name == "fieldFSTs" {
+						out = append(out, footprint{fn: k, field: "fieldFSTs(read)", locked: false, construction: !fromReaders[k],
+							cachefill: true, pos: fset.Position(m.Pos())})
+					}
+				}
+				return true
+			})
+		}
 		walk = func(stmts []ast.Stmt, held bool) bool {
 			for _, s := range stmts {
+				switch x := s.(type) {
+				case *ast.IfStmt:
+					if x.Init != nil {
+						reads(x.Init, held)
+					}
+					reads(x.Cond, held)
+				case *ast.ForStmt:
+					reads(x.Cond, held)
+				case *ast.RangeStmt:
+					reads(x.X, held)
+				case *ast.SwitchStmt:
+					reads(x.Tag, held)
+				case *ast.BlockStmt:
+				default:
+					reads(s, held)
+				}
 				switch x := s.(type) {
 				case *ast.ExprStmt:
 					switch lockCall(x.X) {
